@@ -4,3 +4,16 @@ From ClapModel Require Import Base.Bytes Base.Machine Base.Utf8.
 From ClapModel Require Import Parse.Cmd Parse.Build Parse.Valid Complete.EngineModel Complete.EngineProofs.
 From Coq Require Import ZArith.
 Open Scope N_scope.
+
+(** Totality: for every command, argv and index the engine returns candidates, the plain
+    "no completion" error, or the command is rejected by clap's own debug assertions when it is
+    built - no [unreachable!]/[expect] of complete.rs is reached (after fixes 8cf4a4e ff.). *)
+Theorem C18_total : forall tbl c args i site, complete_model tbl c args i <> CPanic site.
+Proof. exact total. Qed.
+Print Assumptions C18_total.
+
+(** the engine proper needs no fuel: only [Command::build] of the tree does *)
+Theorem C18_engine_no_fuel : forall tbl f c b args i,
+  build_full f c = BOk b -> complete_built tbl b args i <> CFuel.
+Proof. exact built_no_fuel. Qed.
+Print Assumptions C18_engine_no_fuel.
